@@ -203,6 +203,17 @@ static int n_clear; static TGswSample *cl_dst;
 void tLweClear(TLweSample *result, const TLweParams *params) { if (result != &cl_dst->all_sample[n_clear] || params != c_tp) bad++; n_clear++; }
 static int n_x; static TGswSample *x_dst; static const TGswSample *x_src; static int32_t x_ai;
 void tLweMulByXaiMinusOne(TLweSample *result, int32_t ai, const TLweSample *bk, const TLweParams *params) { if (result != &x_dst->all_sample[n_x] || bk != &x_src->all_sample[n_x] || ai != x_ai || params != c_tp) bad++; n_x++; }
+static int n_back; static TGswSample *b_dst; static const TGswSampleFFT *b_src;
+void tLweFromFFTConvert(TLweSample *result, const TLweSampleFFT *source, const TLweParams *params) { if (result != b_dst->all_sample + n_back || source != b_src->all_samples + n_back || params != c_tp) bad++; n_back++; }
+static int n_fclear; static TGswSampleFFT *fc_dst;
+void tLweFFTClear(TLweSampleFFT *result, const TLweParams *params) { if (result != fc_dst->all_samples + n_fclear || params != c_tp) bad++; n_fclear++; }
+/* FFT-domain gadget: row (bloc i, digit j), polynomial i receives the constant h[j]; which (i,j) pairs were hit is kept as a bit set */
+static int n_addc; static uint32_t hit; static TLweSampleFFT (*fh_rows)[VERIF_L]; static LagrangeHalfCPolynomial fh_polys[KPL][VERIF_K + 1]; static const Torus32 *fh_h;
+void LagrangeHalfCPolynomialAddTorusConstant(LagrangeHalfCPolynomial *result, const Torus32 cst) {
+    long idx = result - &fh_polys[0][0]; int r = (int)(idx / (VERIF_K + 1)), q = (int)(idx % (VERIF_K + 1));
+    if (idx < 0 || idx >= (long)KPL * (VERIF_K + 1) || q != r / VERIF_L || cst != fh_h[r % VERIF_L] || ((hit >> r) & 1u)) bad++;     /* block diagonal, weight of the row's digit, once per row */
+    else hit |= 1u << r;
+    n_addc++; }
 #include "extracted.inc"
 void h_tgsw_rowwise(void) {
     TLweParams tp; TGswParams gp; *(const TLweParams **)&gp.tlwe_params = &tp; *(int32_t *)&gp.kpl = KPL;
@@ -214,6 +225,19 @@ void h_tgsw_rowwise(void) {
     __CPROVER_assert(n_clear == KPL && bad == 0, "every row cleared once");
     tGswMulByXaiMinusOne(&dst, ai, &src, &gp);
     __CPROVER_assert(n_x == KPL && bad == 0, "every row multiplied by X^ai - 1 once, row by row");
+    b_dst = &dst; b_src = &fdst; n_back = 0;
+    tGswFromFFTConvert(&dst, &fdst, &gp);
+    __CPROVER_assert(n_back == KPL && bad == 0, "each of the (k+1)l rows is transformed back exactly once into its own slot");
+    fc_dst = &fdst; n_fclear = 0;
+    tGswFFTClear(&fdst, &gp);
+    __CPROVER_assert(n_fclear == KPL && bad == 0, "every FFT-domain row cleared once");
+    /* FFT-domain gadget rows */
+    static TLweSampleFFT frows[KPL]; static TLweSampleFFT *fblocs[VERIF_K + 1]; Torus32 hh[VERIF_L]; gp.h = hh; *(int32_t *)&gp.l = VERIF_L; *(int32_t *)&tp.k = VERIF_K; fh_h = hh;
+    for (int r = 0; r < KPL; r++) { frows[r].a = fh_polys[r]; frows[r].b = fh_polys[r] + VERIF_K; }
+    for (int b = 0; b <= VERIF_K; b++) fblocs[b] = frows + b * VERIF_L;
+    TGswSampleFFT fg; fg.all_samples = frows; fg.sample = fblocs; n_addc = 0; hit = 0;
+    tGswFFTAddH(&fg, &gp);
+    __CPROVER_assert(n_addc == KPL && bad == 0 && hit == (1u << KPL) - 1u, "FFT-domain gadget: every row (bloc i, digit j) gets the constant h[j] on polynomial i, exactly once, nothing else");
     VERIF_REACH();
 }
 #endif
